@@ -599,6 +599,7 @@ func tryStack(f func() error) (res string) {
 			}
 			st := string(debug.Stack())
 			lastStack = panicFrames(st)
+			lastStackFull = st
 			lastFaultFrame = faultFrame(st)
 			res = "panic:" + msg
 		}
